@@ -28,6 +28,8 @@ type Obligation struct {
 	Model   string   `json:"model,omitempty"`
 	Size    int      `json:"smt_bytes"`
 	Trivial bool     `json:"trivial,omitempty"`
+	Candidate bool   `json:"candidate_model,omitempty"`
+	CEValues map[string]string `json:"ce_values,omitempty"`
 }
 
 type ceTerm struct {
@@ -552,20 +554,109 @@ func (x *Exec) oblige(st *State, kind, detail string, goal string, tags []string
 	st.assume(goal)
 }
 
-// ceTerms: terms whose model values describe a counterexample (entry parameters).
+// ceTerms: terms whose model values describe a counterexample: entry parameters and the named
+// local values visible at the failing point, unfolded through the heap to a small depth.
 func (x *Exec) ceTerms(st *State) []ceTerm {
 	var out []ceTerm
+	seen := map[string]bool{}
+	add := func(label string, v Val) {
+		for _, t := range x.describe(st, label, v, 6) {
+			if !seen[t.Label] && len(out) < 400 {
+				seen[t.Label] = true
+				out = append(out, t)
+			}
+		}
+	}
 	names := make([]string, 0, len(x.entryVars))
 	for n := range x.entryVars {
 		names = append(names, n)
 	}
 	sort.Strings(names)
 	for _, n := range names {
-		v := x.entryVars[n]
-		if v.T == "" || v.Ty == nil {
+		if n == "self" && len(names) > 1 {
 			continue
 		}
-		out = append(out, ceTerm{n, v.T})
+		add(n, x.entryVars[n])
+	}
+	// named locals of the innermost frames
+	for i := len(st.frames) - 1; i >= 0 && i >= len(st.frames)-2; i-- {
+		f := st.frames[i]
+		if f.fn == nil {
+			continue
+		}
+		fi := x.info(f.fn)
+		var ln []string
+		for n := range fi.names {
+			ln = append(ln, n)
+		}
+		sort.Strings(ln)
+		for _, n := range ln {
+			if _, isParam := x.entryVars[n]; isParam && i == 0 {
+				continue
+			}
+			if v, ok := x.lookupNameIn(st, i, n); ok {
+				add("local."+n, v)
+			}
+		}
+	}
+	return out
+}
+
+func (x *Exec) describe(st *State, label string, v Val, depth int) []ceTerm {
+	if v.Ty == nil || v.T == "" || depth < 0 {
+		if v.Ty != nil && v.Loc != nil && v.Loc.Kind == LRef {
+			v.T = v.Loc.Ref
+		} else {
+			return nil
+		}
+	}
+	var out []ceTerm
+	switch u := v.Ty.Underlying().(type) {
+	case *types.Basic:
+		if u.Info()&(types.IsInteger|types.IsBoolean) != 0 {
+			out = append(out, ceTerm{label, v.T})
+		}
+		if u.Info()&types.IsString != 0 {
+			out = append(out, ceTerm{label + ".strlen", "(strlen " + v.T + ")"})
+		}
+	case *types.Pointer:
+		out = append(out, ceTerm{label + ".ref", v.T})
+		if stt, ok := u.Elem().Underlying().(*types.Struct); ok && depth > 0 {
+			for i := 0; i < stt.NumFields(); i++ {
+				hn, _ := x.fieldHeap(u.Elem(), i)
+				h, ok := st.heaps[hn]
+				if !ok {
+					continue
+				}
+				fv := x.valFromTerm(sel(h, v.T), stt.Field(i).Type())
+				out = append(out, x.describe(st, label+"."+stt.Field(i).Name(), fv, depth-1)...)
+			}
+		}
+	case *types.Slice:
+		out = append(out, ceTerm{label + ".len", "(s_len " + v.T + ")"})
+		hn, _ := x.elemHeap(u.Elem())
+		h, ok := st.heaps[hn]
+		if !ok || depth == 0 {
+			return out
+		}
+		n := 3
+		if bits, _, isInt := intInfo(u.Elem()); isInt && bits == 8 {
+			n = 16
+		}
+		for i := 0; i < n; i++ {
+			ev := x.valFromTerm(app(x.atFn(u.Elem()), h, v.T, fmt.Sprint(i)), u.Elem())
+			out = append(out, x.describe(st, fmt.Sprintf("%s[%d]", label, i), ev, depth-1)...)
+		}
+	case *types.Struct:
+		sn := x.ctx.structName(v.Ty)
+		for i := 0; i < u.NumFields(); i++ {
+			fv := x.valFromTerm(fmt.Sprintf("(%s %s)", x.ctx.fieldAcc(sn, u, i), v.T), u.Field(i).Type())
+			out = append(out, x.describe(st, label+"."+u.Field(i).Name(), fv, depth-1)...)
+		}
+	case *types.Map:
+		out = append(out, ceTerm{label + ".ref", v.T})
+	case *types.Interface:
+		out = append(out, ceTerm{label + ".tag", "(i_tag " + v.T + ")"})
 	}
 	return out
 }
